@@ -285,7 +285,7 @@ pub fn two_readers(src: &(dyn Source + Sync), v: &Variant, t: &Tree, rep: &mut R
 }
 
 pub fn run_case(case: &Case, res: &mut SubResult) -> Result<(), String> {
-    let t = Tree::instantiate(&case.shape, case.name_rot, case.content_rot);
+    let t = Tree::instantiate(&case.shape, case.name_rot, case.content_rot, false);
     let full = Oracle::from_tree(&t, false);
     let pruned = Oracle::from_tree(&t, true);
     let ids = query_ids(&t);
